@@ -226,6 +226,8 @@ def _worker_run(arg):
         with _Quiet():
             res = _MOD.run_unit(unit)
         res["wall"] = time.time() - t0
+        for rec in res["violations"]:
+            rec["unit"] = idx
         return idx, res, None
     except BaseException:
         return idx, None, traceback.format_exc()
@@ -369,18 +371,40 @@ def _run_check(mod, modname, prop_id, tier, seed, jobs, scratch, t0,
                 err = None
             except BaseException:
                 again, err = [], traceback.format_exc()
+        history_dependent = False
         if err or not any(a["sig"] == sig for a in again):
-            print("NONDETERMINISM property=%s signature=%s: violation did not"
-                  " reproduce on re-execution%s"
-                  % (prop_id, sig, ("\n" + err) if err else ""))
-            print("  case: " + witness_id(rec["case"])[:600])
-            exit_code = 2
-            continue
+            # not reproducible in isolation: does the whole unit (the same
+            # sequence of cases in one process) reproduce it? Then the
+            # violation depends on the history - state kept by the code
+            # under test between calls - and the unit is the artefact.
+            uidx = rec.get("unit")
+            ures = None
+            if uidx is not None and not err:
+                with _Quiet():
+                    try:
+                        ures = mod.run_unit(units[uidx])
+                    except BaseException:
+                        ures = None
+            if ures is not None and any(v["sig"] == sig
+                                        for v in ures["violations"]):
+                history_dependent = True
+            else:
+                print("NONDETERMINISM property=%s signature=%s: violation "
+                      "did not reproduce on re-execution%s"
+                      % (prop_id, sig, ("\n" + err) if err else ""))
+                print("  case: " + witness_id(rec["case"])[:600])
+                exit_code = 2
+                continue
         os.makedirs(replay_dir, exist_ok=True)
         name = hashlib.sha1(sig.encode()).hexdigest()[:12] + ".json"
         path = os.path.join(replay_dir, name)
         with open(path, "w") as f:
             json.dump({"property": prop_id, "signature": sig,
+                       "history_dependent": history_dependent,
+                       "unit": rec.get("unit") if history_dependent
+                       else None, "tier": tier,
+                       "unit_descriptor": units[rec["unit"]]
+                       if history_dependent else None,
                        "case": rec["case"], "expected": rec["expected"],
                        "observed": rec["observed"],
                        "witnesses_with_this_signature": len(by_sig[sig]),
@@ -487,7 +511,14 @@ def run_replay(prop_id, path):
     try:
         _worker_init("mc.props." + prop_id, scratch)
         with _Quiet():
-            recs = mod.replay(rp["case"])
+            if rp.get("history_dependent"):
+                # the artefact is the whole unit: the violation needs the
+                # sequence of calls that precede it in one process
+                res = mod.run_unit(rp["unit_descriptor"])
+                recs = [r for r in res["violations"]
+                        if r["sig"] == rp["signature"]]
+            else:
+                recs = mod.replay(rp["case"])
     finally:
         shutil.rmtree(scratch, ignore_errors=True)
     print("replaying %s signature=%s" % (path, rp.get("signature")))
